@@ -560,22 +560,30 @@ impl JpegBitstreamReconstructor<'_, '_, '_> {
                     .map(|c| [1u32, 2, 1, 2][jpeg_upsampling_ycbcr[c.comp_idx as usize] as usize])
                     .collect::<Vec<_>>();
 
-                let mut max_hsample = hsamples.iter().copied().max().unwrap().trailing_zeros();
-                let mut max_vsample = vsamples.iter().copied().max().unwrap().trailing_zeros();
+                // MCU size is determined by the sampling factors of all components of the frame, not
+                // only the ones in the scan.
+                let num_frame_comps = self.header.components.len().min(3);
+                let mut max_hsample = jpeg_upsampling_ycbcr[..num_frame_comps]
+                    .iter()
+                    .map(|&j| [1u32, 2, 2, 1][j as usize])
+                    .max()
+                    .unwrap()
+                    .trailing_zeros();
+                let mut max_vsample = jpeg_upsampling_ycbcr[..num_frame_comps]
+                    .iter()
+                    .map(|&j| [1u32, 2, 1, 2][j as usize])
+                    .max()
+                    .unwrap()
+                    .trailing_zeros();
                 let mut w8 = (frame_header.width.div_ceil(8) + max_hsample) >> max_hsample;
                 let mut h8 = (frame_header.height.div_ceil(8) + max_vsample) >> max_vsample;
 
                 if num_comps == 1 {
-                    let full_w8 = frame_header.width.div_ceil(8);
-                    let full_h8 = frame_header.height.div_ceil(8);
-                    if (1 << max_hsample) == hsamples[0] {
-                        w8 = full_w8;
-                        max_hsample = 0;
-                    }
-                    if (1 << max_vsample) == vsamples[0] {
-                        h8 = full_h8;
-                        max_vsample = 0;
-                    }
+                    // Non-interleaved scan: blocks of the component in raster order.
+                    w8 = (frame_header.width * hsamples[0]).div_ceil(8 << max_hsample);
+                    h8 = (frame_header.height * vsamples[0]).div_ceil(8 << max_vsample);
+                    max_hsample -= hsamples[0].trailing_zeros();
+                    max_vsample -= vsamples[0].trailing_zeros();
 
                     hsamples = vec![1];
                     vsamples = vec![1];
